@@ -168,6 +168,58 @@ fn topological_sort_all(rules : Vec<Rule>) -> (r: Result<NodePack, TopologicalSo
         }),
 //@ end
 
+// ---------- reading the rules files (the real function behind the stub that get_nodes is verified against) ----------
+// what is on disk does not change while the rules files are read: the bytes of a path, if it can be opened
+uninterp spec fn file_bytes(path: Seq<char>) -> Option<Seq<u8>>;
+uninterp spec fn utf8(s: Seq<char>) -> Seq<u8>;
+uninterp spec fn is_utf8(b: Seq<u8>) -> bool;
+struct RulesFile { c: Ghost<Seq<u8>> }
+impl RulesFile {
+    #[verifier::external_body]
+    fn read_to_end(&mut self, buf: &mut Vec<u8>) -> (r: Result<usize, io::Error>)
+        ensures r is Ok ==> final(buf)@ == old(buf)@ + old(self).c@
+    { unimplemented!() }
+}
+trait RulesSystem : Sized {
+    fn open(&self, path: &str) -> (r: Result<RulesFile, SystemError>)
+        ensures r matches Ok(f) ==> file_bytes(path@) == Some(f.c@);
+}
+struct Utf8Error { x: u8 }
+#[verifier::external_body] fn from_utf8(b: &Vec<u8>) -> (r: Result<&str, Utf8Error>) ensures r is Ok <==> is_utf8(b@), r matches Ok(t) ==> utf8(t@) == b@ { unimplemented!() }
+#[verifier::external_body] fn str_to_string(s: &str) -> (r: String) ensures r@ == s@ { s.to_string() }
+#[verifier::external_body] fn string_to_string(s: &String) -> (r: String) ensures r == *s { s.clone() }
+// the i-th entry is (the i-th path, the text of that file)
+spec fn texts_of(paths: Seq<String>, v: Seq<(String, String)>, k: int) -> bool {
+    forall|i: int| 0 <= i < k ==> (#[trigger] v[i]).0 == paths[i] && file_bytes(paths[i]@) == Some(utf8(v[i].1@))
+}
+//@ extract build.rs fn read_all_rules_files_to_strings
+//@ props C01 C05
+//@ rename read_all_rules_files_real
+//@ attr #[verifier::loop_isolation(false)]
+//@ ret res
+//@ retype 1 /SystemType : System/ => SystemType : RulesSystem
+//@ insert before 1/1 /for rulefile_path in/ => let drained = drain_all(&mut rulefile_paths);
+//@ rewrite 1 /rulefile_paths\.drain\(\.\.\)/ => drained
+//@ retype 1 /let mut rule_content = Vec::new\(\);/ => let mut rule_content : Vec<u8> = Vec::new();
+//@ rewrite 1 /rule_text\.to_string\(\)/ => str_to_string(rule_text)
+//@ rewrite * /rulefile_path\.to_string\(\)/ => string_to_string(&rulefile_path)
+//@ spec
+    ensures
+        // one (path, text) pair per rules file, in the order the files were named, each text being what is in that file              //# O-G-rules-texts [C01]
+        res matches Ok(v) ==> v@.len() == rulefile_paths@.len() && texts_of(rulefile_paths@, v@, v@.len() as int),
+        // the first file that cannot be opened, read or decoded ends the reading with an error that names it (the UTF-8 error names no file) //# O-G-rules-errors [C05]
+        res matches Err(e) ==> (e is RuleFileFailedToOpen || e is RuleFileFailedToRead || e is RuleFileNotUTF8),
+        res matches Err(BuildError::RuleFileFailedToOpen(p, _)) ==> exists|i: int| 0 <= i < rulefile_paths@.len() && p == #[trigger] rulefile_paths@[i],
+        res matches Err(BuildError::RuleFileFailedToRead(p, _)) ==> exists|i: int| 0 <= i < rulefile_paths@.len() && p == #[trigger] rulefile_paths@[i],
+//@ hint start
+    let ghost paths0 = rulefile_paths@;
+//@ loop 1 binder it
+//@ loop 1 invariant
+        invariant drained@ == paths0, result@.len() == it.index@, texts_of(paths0, result@, it.index@),
+//@ hint before 1/1 /match system\.open\(/
+        proof { assert(paths0[it.index@ as int] == rulefile_path); }
+//@ end
+
 // ================= the HEADS of build() and clean(): everything before the spawn loops =================
 //@ extract build.rs struct BuildParams
 //@ end
